@@ -598,6 +598,8 @@ def j1(ctx):
     du = DefUse(cfg)
     sites = [(n, c) for n in cfg.stmt_nodes() for c in n.calls() if (dotted(c.func) or "").split(".")[-1] == "create_href" and len(c.args) + len(c.keywords) >= 2]
     if not sites:
+        if any(o.status == "violated" for o in obs):
+            return obs      # the href is built another way, and that way is already reported above
         raise AnalysisError("CurrentUserPrincipalProperty.get_value: create_href(<principal>, <prefix>) not found")
     RELATIVISING = ("lstrip", "strip", "removeprefix", "relpath")
     for n, c in sites:
@@ -769,3 +771,19 @@ def h3(ctx):
             else:
                 raise AnalysisError("ensure_trailing_slash: return value `%s` is not a recognised form" % src(v)[:60])
     return obs
+
+
+@rule("C16", "F2", floor=1, kind="N",
+      desc="hrefs keep the mount prefix on the WSGI front end: request.path is SCRIPT_NAME + decoded PATH_INFO by "
+           "concatenation (same obligations as C18/S6) - a path join drops the prefix because PATH_INFO is absolute")
+def f2(ctx):
+    from .c18 import s6
+    return s6(ctx)
+
+
+@rule("C16", "H4", floor=1, kind="N",
+      desc="an href handed out resolves when it is handed back: the route prefix is removed by slicing, not by a "
+           "character-set strip (same obligations as C17/M6)")
+def h4(ctx):
+    from .c17 import m6
+    return m6(ctx)
